@@ -219,11 +219,10 @@ def check_cfgseq_case(case, acc):
             cfg[bit] = dict(saved, field_python_type='int')
         out = classify_loads(data, cfg, case['enc'], case['hex'])
         acc.outcome('cfgseq:' + out.split('@')[0])
-        if out.startswith('BAD') or (step == 'del' and out != 'library_error') or (step == 'restore' and out != 'dict'):
-            acc.viol('c07.cfgseq.%s' % (out[4:] if out.startswith('BAD') else 'wrong_outcome'), case,
-                     'step %d (%s): %s' % (i + 1, step, out),
-                     'library error when the element has no configuration, dict when it is restored, never another '
-                     'exception', 'the configuration object is edited in place between decodes')
+        if out.startswith('BAD'):
+            acc.viol('c07.cfgseq.%s' % out[4:], case, 'step %d (%s): %s' % (i + 1, step, out),
+                     'a dict or the library error, never another exception or a hang',
+                     'the configuration object is edited in place between decodes')
             return
 
 
